@@ -161,6 +161,42 @@ func c17(args []string) int {
 	out.Put(map[string]interface{}{"kind": "classes", "words": total.words, "panics": total.panics, "decodability": total.decodability,
 		"opcode": total.opcode, "pcrel": total.pcrel, "first": total.first})
 	out.Put(map[string]interface{}{"kind": "samples", "samples": samples})
+	// ---- every format of the table: fills of its free bits built from architectural field segments set to 0 / all ones /
+	//      random (alias and canDecode predicates depend on fields being 0, all ones or equal to each other)
+	perFormat := 400
+	if c.tier == "thorough" {
+		perFormat = 6000
+	}
+	fstats := &c17Stats{}
+	formats := gasm.VerifFormats()
+	cuts := []uint{0, 5, 10, 12, 15, 16, 21, 22, 23, 24, 29, 30, 31, 32}
+	for _, f := range formats {
+		free := ^f[0]
+		for k := 0; k < perFormat; k++ {
+			var fill uint32
+			switch rng.Intn(3) {
+			case 1:
+				fill = 0xffffffff
+			case 2:
+				fill = uint32(rng.U64())
+			}
+			for m := rng.Intn(4); m > 0; m-- {
+				i := rng.Intn(len(cuts) - 1)
+				seg := uint32((uint64(1)<<cuts[i+1] - 1) &^ (uint64(1)<<cuts[i] - 1))
+				switch rng.Intn(3) {
+				case 0:
+					fill &^= seg
+				case 1:
+					fill |= seg
+				default:
+					fill = fill&^seg | uint32(rng.U64())&seg
+				}
+			}
+			fstats.one(f[1] | fill&free)
+		}
+	}
+	out.Put(map[string]interface{}{"kind": "formats", "formats": len(formats), "words": fstats.words, "panics": fstats.panics, "decodability": fstats.decodability,
+		"opcode": fstats.opcode, "pcrel": fstats.pcrel, "first": fstats.first})
 	// ---- the whole 32-bit space: strided (quick) or complete (thorough), in parallel
 	stride := uint64(4099)
 	if c.tier == "thorough" {
